@@ -46,9 +46,9 @@ UNITS = {
     "c03": {"kind": "exe", "src": ["units/c03_compare_mask.cpp"]},
     "c07": {"kind": "exe", "src": ["units/c07_int_bits.cpp"]},
     "c06": {"kind": "exe", "src": ["units/c06_convert.cpp"], "aux": {"ref": {"src": "common/ref.cpp", "flags": ["-ffp-contract=off", "-fno-builtin"]}}, "link": ["ref"]},
+    "c09": {"kind": "exe", "src": ["units/c09_reduce.cpp"]},
     "c02": {"kind": "exe", "src": ["units/c02_fp_basic.cpp"], "aux": {"ref": {"src": "common/ref.cpp", "flags": ["-ffp-contract=off", "-fno-builtin"]}}, "link": ["ref"]},
 }
-
 ALL22 = "every architecture this CPU executes: 20 x86 (sse2 ... avx512vnni<avx512vbmi2>) + emulated<128>, emulated<256>"
 COMMON_ASSUME = [
     "the sandbox CPU executes each instruction set as specified; architectures it cannot execute (fma4, avx512er/pf, NEON, SVE, RVV, WASM) are not observed",
@@ -177,5 +177,24 @@ PROPS = {
         "assumptions": COMMON_ASSUME + ["default rounding mode FE_TONEAREST (asserted)", "integer-returning forms only when the rounded value fits the destination"],
         "floor": {"quick": 10**6, "thorough": 10**9},
         "exhaustive": {"quick": False, "thorough": False},
+    },
+    "C09": {
+        "technique": "runtime monitoring: exact-sum / true-extreme oracle with the witness placed in every lane; haddp with pairwise distinct row sums; 22 architectures",
+        "level_text": "reduce_add (integers exact modulo 2^bits; floats within (n-1) roundings, exact for small integers), reduce_max/min, haddp and the generic reduce(f,x) "
+                      "(max, min, +, &) of every observed batch are compared with a scalar fold over the stored lanes; one-hot addends, unique extremes, type MIN/MAX and "
+                      "distinct-value permutations are placed in every lane position of every type. Lane values are sampled: exploration.",
+        "level_note": "No NaN lanes for max/min. reduce(f,x) only where the library has a constant swizzle kernel for the halving masks (not_accepted list in the evidence).",
+        "design_ref": "DESIGN.md section 6 C09",
+        "jobs": [
+            {"unit": "c09"},
+            {"unit": "c09", "variant": "native", "tiers": ["thorough"]},
+            {"unit": "c09", "variant": "ndebug", "tiers": ["thorough"]},
+            {"unit": "c09", "variant": "clang", "tiers": ["thorough"]},
+        ],
+        "rule": "each evaluation = one reduction call compared with a scalar fold (128-bit / long double); workloads: random and lattice lanes, one-hot addend, unique maximum, "
+                "unique minimum, type MAX / MIN in lane k, pairwise-distinct permutation, for every lane k; haddp rows random small integers, one-hot columns, and rows with "
+                "pairwise distinct sums; distinct cell = (op,type,arch,workload,witness lane); " + ALL22,
+        "assumptions": COMMON_ASSUME + ["floating reduce_add tolerance (n-1)*eps*sum|a_i|; exact for the small-integer workloads"],
+        "floor": {"quick": 10**5, "thorough": 10**6},
     },
 }
